@@ -44,6 +44,46 @@ func sym2(t ScalarType, a11, a12, a22 Scalar) Matrix {
 	return m
 }
 
+func sym1(t ScalarType, a11 Scalar) Matrix {
+	m := NullDenseMatrix(t, 1, 1)
+	m.At(0, 0).Set(a11)
+	return m
+}
+
+// tri3 is the symmetric tridiagonal 3x3 matrix (a11 a12 a22 a23 a33), a13 = 0.
+func tri3(t ScalarType, a []Scalar) Matrix {
+	m := NullDenseMatrix(t, 3, 3)
+	m.At(0, 0).Set(a[0])
+	m.At(0, 1).Set(a[1])
+	m.At(1, 0).Set(a[1])
+	m.At(1, 1).Set(a[2])
+	m.At(1, 2).Set(a[3])
+	m.At(2, 1).Set(a[3])
+	m.At(2, 2).Set(a[4])
+	return m
+}
+
+func diag3(t ScalarType, a []Scalar) Matrix {
+	m := NullDenseMatrix(t, 3, 3)
+	for i := 0; i < 3; i++ {
+		m.At(i, i).Set(a[i])
+	}
+	return m
+}
+
+// matOf turns the coordinates of a matrix-valued evaluation point into a matrix.
+func matOf(x []Scalar) Matrix {
+	t := x[0].Type()
+	switch len(x) {
+	case 1:
+		return sym1(t, x[0])
+	case 3:
+		return sym2(t, x[0], x[1], x[2])
+	default:
+		return tri3(t, x)
+	}
+}
+
 func wrapScalar(d st.ScalarPdf) *obj {
 	o := &obj{}
 	o.logpdf = func(r Scalar, x []Scalar) error { return d.LogPdf(r, x[0]) }
@@ -87,7 +127,7 @@ func wrapVector(d st.VectorPdf) *obj {
 
 func wrapMatrix(d st.MatrixPdf) *obj {
 	o := &obj{}
-	o.logpdf = func(r Scalar, x []Scalar) error { return d.LogPdf(r, sym2(x[0].Type(), x[0], x[1], x[2])) }
+	o.logpdf = func(r Scalar, x []Scalar) error { return d.LogPdf(r, matOf(x)) }
 	o.get = d.GetParameters
 	o.set = d.SetParameters
 	o.stype = d.ScalarType
@@ -273,6 +313,73 @@ func build(fam string, p []float64, t ScalarType, variables bool) (*obj, error) 
 	case "skewnormal":
 		d, e := vd.NewSkewNormalDistribution(vecOf(t, ps[0:2]), sym2(t, s(3), s(4), s(5)), vecOf(t, ps[5:7]), vecOf(t, ps[7:9]))
 		err = vc(d, e)
+	case "vnormal1":
+		d, e := vd.NewNormalDistribution(vecOf(t, ps[0:1]), sym1(t, s(2)))
+		err = vc(d, e)
+	case "vnormal3":
+		d, e := vd.NewNormalDistribution(vecOf(t, ps[0:3]), tri3(t, ps[3:8]))
+		err = vc(d, e)
+	case "vt1":
+		d, e := vd.NewTDistribution(s(1), vecOf(t, ps[1:2]), sym1(t, s(3)))
+		err = vc(d, e)
+	case "vt3":
+		d, e := vd.NewTDistribution(s(1), vecOf(t, ps[1:4]), tri3(t, ps[4:9]))
+		err = vc(d, e)
+	case "skewnormal1":
+		d, e := vd.NewSkewNormalDistribution(vecOf(t, ps[0:1]), sym1(t, s(2)), vecOf(t, ps[2:3]), vecOf(t, ps[3:4]))
+		err = vc(d, e)
+	case "iid_normal1", "iid_normal3":
+		base, e := sd.NewNormalDistribution(s(1), s(2))
+		if e != nil {
+			return nil, e
+		}
+		n := 1
+		if fam == "iid_normal3" {
+			n = 3
+		}
+		d, e := vd.NewScalarIid(base, n)
+		err = vc(d, e)
+	case "iid_exp3":
+		base, e := sd.NewExponentialDistribution(s(1))
+		if e != nil {
+			return nil, e
+		}
+		d, e := vd.NewScalarIid(base, 3)
+		err = vc(d, e)
+	case "id_normal1":
+		c1, e := sd.NewNormalDistribution(s(1), s(2))
+		if e != nil {
+			return nil, e
+		}
+		d, e := vd.NewScalarId(c1)
+		err = vc(d, e)
+	case "id_nen3":
+		c1, e := sd.NewNormalDistribution(s(1), s(2))
+		if e != nil {
+			return nil, e
+		}
+		c2, e := sd.NewExponentialDistribution(s(3))
+		if e != nil {
+			return nil, e
+		}
+		c3, e := sd.NewNormalDistribution(s(4), s(5))
+		if e != nil {
+			return nil, e
+		}
+		d, e := vd.NewScalarId(c1, c2, c3)
+		err = vc(d, e)
+	case "iwishart1":
+		d, e := md.NewInverseWishartDistribution(s(1), sym1(t, s(2)))
+		if e != nil {
+			return nil, e
+		}
+		o = wrapMatrix(d)
+	case "iwishart3":
+		d, e := md.NewInverseWishartDistribution(s(1), diag3(t, ps[1:4]))
+		if e != nil {
+			return nil, e
+		}
+		o = wrapMatrix(d)
 	case "iwishart":
 		d, e := md.NewInverseWishartDistribution(s(1), sym2(t, s(2), s(3), s(4)))
 		if e != nil {
